@@ -1,10 +1,10 @@
 #!/bin/bash
 # usage: tools/one_b.sh <ID> <n> [tier]   - one round-B candidate against the check of its property, in a scratch worktree
 id=$1; n=$2; tier=${3:-quick}
-WT=/tmp/mutb/one_$id$n
+WT=${WTBASE:-/tmp/mutb}/one_$id$n
 git -C /repo worktree remove --force $WT 2>/dev/null
 git -C /repo worktree add -q --detach $WT HEAD || exit 1
-(cd $WT && git apply /verif/out/mutb_keep/$id/patch$n.diff) || { echo "$id-b$n: patch does not apply"; git -C /repo worktree remove --force $WT; exit 3; }
+(cd $WT && git apply /verif/${KEEP:-out/mutb_keep}/$id/patch$n.diff) || { echo "$id-b$n: patch does not apply"; git -C /repo worktree remove --force $WT; exit 3; }
 cd /verif
 VERIF_REPO=$WT timeout 3000 ./check $id $tier > out/oneb_$id-$n.log 2>&1; rc=$?
 echo "$id-b$n rc=$rc violations=$(grep -c '^VIOLATION' out/oneb_$id-$n.log) :: $(grep -A1 '^VIOLATION' out/oneb_$id-$n.log | grep -v '^VIOLATION' | head -1 | cut -c1-200) $(grep INCONCLUSIVE out/oneb_$id-$n.log | cut -c1-200)"
